@@ -89,13 +89,18 @@ package concurrent_map
 //@ func paramfn:rangeDo.f
 //@   ensures setV ==> valOK(newV)
 //@ func (m *shard) rangeDo [C11]
+//@   log shardRangeDo
 //@   requires m != nil
 //@   loop 0:
 //@     invariant m.m == atlock(m.m) && m.m != nil && m.max == atlock(m.max) && 0 <= len(m.m) && len(m.m) <= atlock(len(m.m))
 //@     invariant forall k int :: (k in m.m) ==> (k in atlock(m.m)) && valOK(m.m[k])
 
-//@ func (m *Map) RangeDo [C11]
+// RangeDo (C11, C19): EVERY shard is ranged, in order; only an error of the callback ends the pass early.
+//@ func (m *Map) RangeDo [C11, C19]
 //@   log mapRangeDo
 //@   requires m != nil
+//@   ensures result == nil ==> it0 == 64
+//@   ensures result != nil ==> result == lastret(shardRangeDo)
 //@   loop 0:
-//@     invariant m != nil
+//@     invariant m != nil && 0 <= it0 && it0 <= 64
+//@     each iter_calls(shardRangeDo) == 1 && iter_ret(shardRangeDo, 0) == nil && iter_arg(shardRangeDo, 0, 1) == f
